@@ -63,7 +63,7 @@ CLAIMS = {
          "Coq proof + differential correspondence + hang monitor"),
  "C12": ("Coq theorems: the trigger plan equals the specified cadence for every event_harvest_config / span_event_harvest_config, "
          "zero-limit categories are never sent, and for n in {1,6} triggers the cancel hand-shake LTS (enumerated inside Coq) is "
-         "deadlock-free, terminates after Close and never blocks the processor; real trigger goroutines with a woven ticker; restarts with a different harvest configuration on a real processor.",
+         "deadlock-free, terminates after Close and never blocks the processor (also proved for every broadcast-group size 0..6); real trigger goroutines with a woven ticker; restarts with a different harvest configuration on a real processor.",
          "§4 C12", "goroutine start-up abstracted; n is 1 or 6 as in the code; periods < 2^63 ns.",
          "Coq proof (functional part) + in-Coq exhaustive LTS enumeration lifted by forallb_forall + trace inclusion"),
  "C13": ("Coq theorems over all pairs of policy maps: verify iff the three documented conditions, fail-closed (no connect request "
